@@ -263,6 +263,28 @@ def checkAcc (d : DS) (s : St) (o : Obs) (t : Toks) (mi : Option (Bytes × Bool)
         | _ => "panic")) ++ [s!"{hex (ascii "absent!")}:none"])
   let s := if ((tget t "get").splitOn "panic").length > 1 then s.prop "C03" "no_panic_get" (tget t "get")
     else s.cmp "acc.get" getModel (tget t "get")
+  -- get_decodable::<T> for u64, Bytes, String, Vec<Bytes> on every key
+  let s := if !(thas t "gd") then s else
+    let one (v : Bytes) : String :=
+      let a := match decodeUint 8 v with
+        | .ok (n, _) => toString n
+        | .error _ => "e"
+      let b := match decodeBytes v false with
+        | .ok (x, _) => hex x
+        | .error _ => "e"
+      let cstr := match decodeBytes v false with
+        | .ok (x, _) => if utf8Valid x then hex x else "e"
+        | .error _ => "e"
+      let dl := match decodeBytes v true with
+        | .ok (p, _) =>
+          (match Record.decodeBytesList p with
+           | .ok l => "[" ++ String.intercalate ";" (l.map hex) ++ "]"
+           | .error _ => "e")
+        | .error _ => "e"
+      s!"{a}/{b}/{cstr}/{dl}"
+    let m := if r.content.isEmpty then "-" else
+      String.intercalate "," (r.content.map fun (k, v) => s!"{hex k}:{one v}")
+    c s "gd" m
   -- text forms
   let s := c s "text" (String.ofList ((r.toText).map fun b => Char.ofNat b.toNat))
   let s := c s "disp" "1"
@@ -971,7 +993,8 @@ def finishPending (s : St) (recs : List Obs) (acc : Option Toks) : St :=
       | "decmany" => handleMany d s t o recs false
       | "declist" => handleMany d s t o recs true
       | "init" =>
-        let s := if tget t "kind" == "build" then handleBuild d s t o rec1 else handleDec d s t o rec1 true
+        let s := if tget t "kind" == "build" || tget t "kind" == "empty" then handleBuild d s t o rec1
+          else handleDec d s t o rec1 true
         let (s, mi) := match rec1 with
           | some ob => let x := checkRecord d s ob "init"; (x.1, x.2.2)
           | none => (s, none)
